@@ -620,12 +620,119 @@ Definition load_tree (H : bytes -> bytes) (b : value) (unordered : bool) : lres 
 Definition load_uri (H : bytes -> bytes) (uri : bytes) : lres download :=
   load H (VMap [(k_magnet, VStr uri)]) false.
 
-(* bencoded bytes through C07's buffer decoder. NOTE: the decoder's flag is that of the whole
-   object (set if ANY dictionary inside is unordered); it equals b["info"]'s flag whenever
-   nothing outside "info" is unordered — the generator keeps to that. *)
+(* ---------------------------------------------------------------- per-dictionary unordered flags
+   torrent::Object keeps flag_unordered PER OBJECT: object_read_bencode_c sets it on a dictionary
+   whose keys are not strictly increasing, and every list / dictionary inherits it from any
+   element decoded into it. C07's value tree carries no flags and its decoder returns only the
+   flag of the outermost object, so the loader's input from BYTES is modelled with a flagged
+   tree: dec_f is C07's dec_c with the flag stored at every list / dictionary node
+   (ProofsDecode.dec_f_erase: erasing the flags gives exactly C07's dec_c result). *)
+Inductive fvalue :=
+| FInt (z : Z)
+| FStr (s : bytes)
+| FList (l : list fvalue) (u : bool)
+| FMap (m : list (bytes * fvalue)) (u : bool).
+
+Definition fflag (v : fvalue) : bool :=
+  match v with FList _ u => u | FMap _ u => u | _ => false end.
+
+Fixpoint erase (v : fvalue) : value :=
+  match v with
+  | FInt z => VInt z
+  | FStr s => VStr s
+  | FList l _ => VList (map erase l)
+  | FMap m _ => VMap (map (fun kv => (fst kv, erase (snd kv))) m)
+  end.
+
+Fixpoint fmap_insert (k : bytes) (v : fvalue) (m : list (bytes * fvalue)) : list (bytes * fvalue) :=
+  match m with
+  | [] => [(k, v)]
+  | (k', v') :: m' =>
+      if bytes_ltb k k' then (k, v) :: m
+      else if bytes_ltb k' k then (k', v') :: fmap_insert k v m'
+      else (k, v) :: m'
+  end.
+
+Definition fmap_is_empty (m : list (bytes * fvalue)) : bool := match m with [] => true | _ => false end.
+
+Fixpoint dec_f (fuel : nat) (depth : N) (l : bytes) {struct fuel} : res fvalue :=
+  match fuel with
+  | O => OutOfFuel
+  | S f =>
+      match l with
+      | [] => Reject
+      | c :: l' =>
+          if c =? ch_i then
+            match c_value l' with
+            | Some (z, e :: rest) => if e =? ch_e then Ok (FInt z) rest else Reject
+            | _ => Reject
+            end
+          else if c =? ch_l then
+            if depth_limit_c <=? depth + 1 then Reject else items_f f (depth + 1) l' [] false
+          else if c =? ch_d then
+            if depth_limit_c <=? depth + 1 then Reject else entries_f f (depth + 1) l' [] [] false
+          else if is_digit c then
+            match c_string l with
+            | Ok s rest => Ok (FStr s) rest
+            | Reject => Reject | Fault => Fault | OutOfFuel => OutOfFuel
+            end
+          else Reject
+      end
+  end
+with items_f (fuel : nat) (depth : N) (l : bytes) (acc : list fvalue) (fl : bool) {struct fuel} : res fvalue :=
+  match fuel with
+  | O => OutOfFuel
+  | S f =>
+      match l with
+      | [] => Reject
+      | c :: l' =>
+          if c =? ch_e then Ok (FList (rev acc) fl) l'
+          else match dec_f f depth l with
+               | Ok v rest => items_f f depth rest (v :: acc) (fl || fflag v)
+               | Reject => Reject | Fault => Fault | OutOfFuel => OutOfFuel
+               end
+      end
+  end
+with entries_f (fuel : nat) (depth : N) (l : bytes) (m : list (bytes * fvalue)) (prev : bytes) (fl : bool) {struct fuel} : res fvalue :=
+  match fuel with
+  | O => OutOfFuel
+  | S f =>
+      match l with
+      | [] => Reject
+      | c :: l' =>
+          if c =? ch_e then Ok (FMap m fl) l'
+          else match c_string l with
+               | Ok k rest =>
+                   let fl1 := fl || (bytes_leb k prev && negb (fmap_is_empty m)) in
+                   match dec_f f depth rest with
+                   | Ok v rest' => entries_f f depth rest' (fmap_insert k v m) k (fl1 || fflag v)
+                   | Reject => Reject | Fault => Fault | OutOfFuel => OutOfFuel
+                   end
+               | Reject => Reject | Fault => Fault | OutOfFuel => OutOfFuel
+               end
+      end
+  end.
+
+Definition decode_f (l : bytes) : res fvalue := dec_f (2 * length l + 2) 0 l.
+
+Fixpoint flookup (k : bytes) (m : list (bytes * fvalue)) : option fvalue :=
+  match m with
+  | [] => None
+  | (k', v) :: m' => if bytes_eqb k k' then Some v else flookup k m'
+  end.
+
+(* the flag_unordered bit of b["info"] *)
+Definition info_flag (b : fvalue) : bool :=
+  match b with
+  | FMap m _ => match flookup k_info m with Some (FMap _ u) => u | _ => false end
+  | _ => false
+  end.
+
+(* bencoded bytes: the real decoder, then the loader; only the flag of the "info" dictionary
+   (unordered anywhere inside it) matters, anything outside may be unordered *)
 Definition load_bytes (H : bytes -> bytes) (s : bytes) : option (lres download) :=
-  match decode_c s with
-  | Ok (v, fl) _ => Some (load H v fl)
+  match decode_f s with
+  | Ok b _ => Some (load H (erase b) (info_flag b))
   | _ => None
   end.
 
